@@ -1,5 +1,5 @@
 """Driver library: extraction -> Verus -> attribution -> decision -> evidence.  See DESIGN.md §2."""
-import sys, os, json, hashlib, subprocess, time, re, shutil, concurrent.futures as cf
+import sys, os, json, hashlib, subprocess, time, re, shutil, tempfile, concurrent.futures as cf
 
 VERIF = os.path.dirname(os.path.dirname(os.path.abspath(__file__)))
 REPO = os.environ.get("VERIF_REPO", "/repo")
@@ -157,14 +157,17 @@ def verify_file(path, rlimit=None, extra=None):
     if extra:
         flags += extra
     key = hashlib.sha256(txt + ("\0".join(flags) + VERUS_VERSION).encode()).hexdigest()
-    os.makedirs(CACHE, exist_ok=True)
+    # The verifier runs on EVERY invocation. A result cache exists only as a development aid and is opt-in
+    # (VERIF_CACHE=1); the registered commands never set it, so a quiet run always means Verus discharged the obligations now.
+    use_cache = bool(os.environ.get("VERIF_CACHE")) and not os.environ.get("VERIF_NOCACHE")
     cpath = os.path.join(CACHE, key + ".json")
-    if os.path.exists(cpath) and not os.environ.get("VERIF_NOCACHE"):
+    if use_cache and os.path.exists(cpath):
         r = json.load(open(cpath))
         r["cached"] = True
         return r
-    logdir = os.path.join(CACHE, "log-" + key[:16])
-    shutil.rmtree(logdir, ignore_errors=True)
+    # per-invocation scratch directory (unique: concurrent checks of properties that share a unit must not collide)
+    os.makedirs(CACHE, exist_ok=True)
+    logdir = tempfile.mkdtemp(prefix="log-%s-" % key[:12], dir=CACHE)
     t0 = time.time()
     p = sh(["verus", path] + flags + ["--log", "air-final", "--log-dir", logdir], cwd=os.path.dirname(path))
     wall = time.time() - t0
@@ -201,7 +204,8 @@ def verify_file(path, rlimit=None, extra=None):
         shutil.rmtree(logdir, ignore_errors=True)
     res["obligations"] = obl
     res["diags"] = [b for b in parse_diag(p.stderr) if b["level"] == "error"]
-    json.dump(res, open(cpath, "w"))
+    if use_cache:
+        json.dump(res, open(cpath, "w"))
     return res
 
 
@@ -380,6 +384,53 @@ def load_known():
     return {"findings": [], "fixed": []}
 
 
+def thorough_stability(units, gens, seed):
+    """thorough tier: re-discharge every unit under three more Z3 seeds (derived from VERIF_SEED). A VC is discharged if ANY
+    proof search discharges it, so this never raises an alarm; it measures proof stability and is reported in the evidence."""
+    rows = []
+    zseeds = [101 + 7 * seed, 211 + 13 * seed, 307 + 17 * seed]
+    jobs = [(u, z) for u in units for z in zseeds]
+    with cf.ThreadPoolExecutor(max_workers=8) as ex:
+        futs = {j: ex.submit(verify_file, gens[j[0]][0], None, ["--smt-option", "smt.random_seed=%d" % j[1]]) for j in jobs}
+        for (u, z), f in futs.items():
+            r = f.result()
+            a = analyse_unit(u, r, gens[u][1], gens[u][0])
+            fails = [x["obligation"] for x in a["failures"]] + ["%s.lemma.%s[%s]" % (u, o["kind"], o["clause"]) for o in a["other"]]
+            rows.append({"unit": u, "z3_seed": z, "smt_ms": r.get("smt_ms", 0), "verified_fns": r.get("verified", 0),
+                         "failing_under_this_seed": fails, "compile_error": bool(a["compile_error"]), "resource": len(a["resource"])})
+    return rows
+
+
+def thorough_selftest(prop):
+    """thorough tier: detection self-test. Every stored seeded change (seeded/<id>/patch.diff) that this property's check is
+    recorded as catching is applied to a scratch copy of /repo's CURRENT tree and the quick check is run on the copy; the
+    expected outcome is exit 1. Informational (a patch may not apply on an edited tree); never an alarm."""
+    out = []
+    try:
+        res = json.load(open(os.path.join(VERIF, "seeded", "results.json")))
+    except Exception:
+        return out
+    for sid, e in sorted(res.items()):
+        cb = e.get("caught_by") or []
+        cb = [cb] if isinstance(cb, str) else cb
+        if prop not in cb:
+            continue
+        d = tempfile.mkdtemp(prefix="verif-selftest-")
+        try:
+            sh(["rsync", "-a", "--exclude", "target", "--exclude", ".git", REPO + "/", d + "/"])
+            ap = sh(["patch", "-p1", "-s", "-f", "-i", os.path.join(VERIF, e["patch"])], cwd=d)
+            if ap.returncode != 0:
+                out.append({"seeded": sid, "result": "patch does not apply to the current tree (skipped)"})
+                continue
+            env = dict(os.environ, VERIF_REPO=d, VERIF_TIER="quick", VERIF_REPLAY_DIR=d)
+            r = sh([os.path.join(VERIF, "bin", "check"), prop, "--tier", "quick"], env=env)
+            obl = [l[len("FAILED-OBLIGATION "):] for l in r.stdout.splitlines() if l.startswith("FAILED-OBLIGATION ")]
+            out.append({"seeded": sid, "exit": r.returncode, "result": "caught" if r.returncode == 1 else "NOT caught", "failed_obligations": obl[:6]})
+        finally:
+            shutil.rmtree(d, ignore_errors=True)
+    return out
+
+
 def run_property(prop, tier, seed, replay, t0):
     props = load_props()
     if prop not in props:
@@ -392,7 +443,7 @@ def run_property(prop, tier, seed, replay, t0):
         ensure_extractor()
         gens = {}
         for u in units:
-            gens[u] = gen_unit(u)
+            gens[u] = gen_unit(u, outdir=os.path.join(UNITS, prop))
         results = {}
         with cf.ThreadPoolExecutor(max_workers=min(8, len(units))) as ex:
             futs = {u: ex.submit(verify_file, gens[u][0]) for u in units}
@@ -416,8 +467,8 @@ def run_property(prop, tier, seed, replay, t0):
             if not mine:
                 continue
             retried = 0
-            for seed in (11, 23, 37):
-                r2 = verify_file(gens[u][0], rlimit=20, extra=["--smt-option", "smt.random_seed=%d" % seed])
+            for zseed in (11, 23, 37):
+                r2 = verify_file(gens[u][0], rlimit=20, extra=["--smt-option", "smt.random_seed=%d" % zseed])
                 a2 = analyse_unit(u, r2, gens[u][1], gens[u][0])
                 retried += 1
                 if a2["compile_error"]:
@@ -499,6 +550,20 @@ def run_property(prop, tier, seed, replay, t0):
         bounded.append({"label": ex["label"], "bound": ex.get("bounded"), "returncode": r.returncode, "result": out})
         if r.returncode != 0:
             undecided.append("auxiliary check failed: %s" % ex["label"])
+    # frame guard (NOT a proof, never an alarm): state named here may be touched only inside functions that are under contract.
+    # If another function of the file starts touching it, the per-function contracts no longer cover the property -> undecided.
+    for fg in ([] if any(analyses[u]["compile_error"] for u in units) else cfg.get("frame_guard", [])):
+        spans = [it["src_lines"] for _, it in my_items if it["file"] == fg["file"] and fn_name_of_item(it) in fg["allowed_fns"]]
+        try:
+            src = open(os.path.join(REPO, fg["file"])).read().splitlines()
+        except OSError:
+            undecided.append("frame guard: %s not readable" % fg["file"])
+            continue
+        for ln, l in enumerate(src, 1):
+            code = l.split("//")[0]
+            if any(t in code for t in fg["tokens"]) and not any(a <= ln <= b for a, b in spans):
+                undecided.append("frame guard: %s:%d touches %s outside the functions under contract (%s); the per-function contracts no longer cover the property" % (
+                    fg["file"], ln, [t for t in fg["tokens"] if t in code], ", ".join(fg["allowed_fns"])))
     expected_fns = cfg.get("functions", [])
     present = set(fn_name_of_item(it) for _, it in my_items)
     for fn in expected_fns:
@@ -524,6 +589,14 @@ def run_property(prop, tier, seed, replay, t0):
                 note = " [replayed on the real code: %s]" % rr.get("status")
             print("KNOWN-FINDING: property=%s %s%s" % (prop, k["what"], note))
 
+    stability, selftest = [], []
+    if tier == "thorough" and not any(analyses[u]["compile_error"] for u in units):
+        stability = thorough_stability(units, gens, seed)
+        if not os.environ.get("VERIF_REPO"):
+            selftest = thorough_selftest(prop)
+        for st in selftest:
+            if st.get("result") == "NOT caught":
+                print("NOTE property=%s detection self-test: seeded change %s was not caught on this tree" % (prop, st["seeded"]))
     samples = []
     for u, it in my_items[:6]:
         samples.append({"function": "%s::%s" % (it["file"], it["selector"]), "src_lines": it["src_lines"], "src_sha": source_hash(it),
@@ -546,19 +619,34 @@ def run_property(prop, tier, seed, replay, t0):
         "bounded_stand_ins": bounded,
         "seed_retries": {u: analyses[u].get("seed_retries", 0) for u in units},
         "known_findings_replayed": replayed,
+        "thorough_seed_stability": stability,
+        "thorough_detection_selftest": selftest,
     }
     ev["coverage"] = cov
     ev["assumptions"] = cfg.get("assumptions", []) + ["every item listed in coverage.trusted_base (mechanical scan of the generated unit)",
                                                        "usize is 64 bit; Verus + Z3 are sound; the extractor's rules N1..N16 preserve semantics (DESIGN §3)"]
     ev["wall_s"] = time.time() - t0
 
+    if replay:
+        # --replay FILE: re-decide the obligation a stored violation names, on the current tree (and re-run its concrete input, if it has one)
+        try:
+            rj = json.load(open(replay))
+        except Exception as e:
+            rj = {}
+            print("REPLAY property=%s cannot read %s: %s" % (prop, replay, e))
+        want = rj.get("obligation")
+        still = want in [f["obligation"] for f in failures]
+        print("REPLAY property=%s obligation=%s : %s" % (prop, want, "still FAILS on the current tree" if still else "is discharged on the current tree"))
+        if rj.get("replay"):
+            print("REPLAY property=%s concrete input on the real code: %s" % (prop, json.dumps(run_replay(rj["replay"]))[:600]))
     if new_fail:
         ev["violations"] = len(new_fail)
         write_evidence(prop, ev)
-        os.makedirs(os.path.join(VERIF, "replays"), exist_ok=True)
+        rdir = os.environ.get("VERIF_REPLAY_DIR") or os.path.join(VERIF, "replays")
+        os.makedirs(rdir, exist_ok=True)
         f = new_fail[0]
         slug = re.sub(r"[^A-Za-z0-9_.-]+", "_", f["obligation"])[:80]
-        rp = os.path.join(VERIF, "replays", "%s-%s.json" % (prop, slug))
+        rp = os.path.join(rdir, "%s-%s.json" % (prop, slug))
         rep = {"property": prop, "obligation": f["obligation"], "function": f["item"], "file": f["file"], "src_lines": f["src_lines"],
                "kind": f["kind"], "verifier_output": f["text"], "all_failed_obligations": [x["obligation"] for x in new_fail],
                "failing_input": None, "tier": tier}
